@@ -11,4 +11,10 @@ ASSUMPTIONS = ['iteration order of Python sets does not matter: the model is sta
 
 
 def run(ctx):
-    return stackcorr.run(ctx, optional=True, brackets=True, pid="C09", n_quick=250)
+    res = stackcorr.run(ctx, optional=True, brackets=True, pid="C09", n_quick=250)
+    # what a layer object accepts must not depend on the pipelines it was part of before (the construction-form oracle of C13)
+    from props import c13
+    r13 = c13.run(dict(ctx, pid=ctx['pid'] + 'imp'))
+    res['violations'] = list(res['violations']) + [x for x in r13.get('violations', []) if x['signature'] in ('oracle:impure-outcome-depends-on-construction', 'harness-error')][:2]
+    res['oracle_checks'] = res.get('oracle_checks', 0) + r13.get('evaluations', 0)
+    return res
